@@ -23,8 +23,8 @@ package godi
 //@ field provider.rootScope immutable
 //@ field provider.disposed atomic
 //@ field provider.scopeCounter atomic
-//@ field provider.services immutable
-//@ field provider.groups immutable
+//@ field provider.services immutable contents map[TypeKey]*Descriptor
+//@ field provider.groups immutable contents map[GroupKey][]*Descriptor
 //@ field provider.graph immutable
 //@ field provider.analyzer immutable
 //@ field provider.id immutable
